@@ -376,6 +376,11 @@ def run(tier):
             c14.compare_documents(ck, m_ov, batch)
         c14.compare_documents(ck, m_ov, c14.corpus_items(ck))
         c14.pairset_scripts(ck, m_ov, 400 if tier == "quick" else 4000)
+        # abstract type resolution through is_type_of / resolve_type in every sync/awaitable mix: a valid document over
+        # conforming data must execute without type errors under asynchronous predicates too (scenarios of harness/c03.py)
+        from . import c03
+        nty = c03.is_type_of_scenarios(ck, tier == "quick")
+        ck.count("is_type_of_scenarios", nty)
         # the ten schema-dependent rules the typing judgment relies on: extracted models vs the real rules
         from . import crules13
         rule0 = ck.rule
